@@ -647,7 +647,7 @@ theorem C01_tipmax_step_clean (r : Repo) (h : Hdr) (ok : Bool) (hf : ForestOK r)
   · by_cases hne : (processHeader r h ok).1 = midState r h ok
     · rw [hne]; exact hm
     · rw [he]
-      obtain ⟨_, hb, hl, hw⟩ := forestOK_cleanWith _ hfm (hc hne) (Facts.pruneDepth : Int) (by decide)
+      obtain ⟨_, hb, hl, hw, _, _⟩ := forestOK_cleanWith _ hfm (hc hne) (Facts.pruneDepth : Int) (by decide)
       obtain ⟨hmem, wl, hwl, hall⟩ := hm
       refine ⟨by rw [hb, hl]; exact hmem, wl, by rw [hl, hw _ hmem]; exact hwl, ?_⟩
       intro b hbm
@@ -820,7 +820,7 @@ theorem C01_forest_ops (ops : List FOp) : ∀ (r : Repo), ForestOK r → TipMax 
     | submit h ok =>
       exact ih _ (forestOK_processHeader_clean r h ok hf hop.2) (C01_tipmax_step_clean r h ok hf hm hop.1 hop.2) hrest
     | clean d =>
-      obtain ⟨h1, h2, h3, h4⟩ := forestOK_cleanWith r hf hop.2 d hop.1
+      obtain ⟨h1, h2, h3, h4, _, _⟩ := forestOK_cleanWith r hf hop.2 d hop.1
       exact ih _ h1 (tipMax_of_frame r _ hm h2 h3 h4) hrest
     | save =>
       obtain ⟨h1, h2, h3⟩ := save_frame_rootFirst r hop
